@@ -324,6 +324,41 @@ where
     s
 }
 
+#[derive(Clone, Debug, serde::Serialize, serde::Deserialize)]
+pub struct DdSettings {
+    pub ascii: bool,
+    pub v3: bool,
+    pub strict: bool,
+    pub diagram_name: String,
+}
+
+#[derive(Clone, Debug, Default)]
+pub struct DdHeader {
+    pub diagram_name: Option<String>,
+    pub num_nodes: usize,
+    pub num_vars: u32,
+    pub support_vars: Vec<u32>,
+    pub support_var_order: Vec<u32>,
+    pub support_var_to_level: Vec<u32>,
+    pub var_names: Option<Vec<String>>,
+    pub num_roots: usize,
+    pub root_names: Option<Vec<String>>,
+}
+
+pub fn dd_header(h: &oxidd_dump::dddmp::DumpHeader) -> DdHeader {
+    DdHeader {
+        diagram_name: h.diagram_name().map(|s| s.to_string()),
+        num_nodes: h.num_nodes(),
+        num_vars: h.num_vars(),
+        support_vars: h.support_vars().to_vec(),
+        support_var_order: h.support_var_order().to_vec(),
+        support_var_to_level: h.support_var_to_level().to_vec(),
+        var_names: h.var_names().map(|v| v.to_vec()),
+        num_roots: h.num_roots(),
+        root_names: h.root_names().map(|v| v.to_vec()),
+    }
+}
+
 pub trait BoolKind: 'static {
     const KIND: BKind;
     const SEM: Sem;
@@ -365,6 +400,10 @@ pub trait BoolKind: 'static {
     fn gc(mr: &MRef<Self>) -> usize {
         mr.with_manager_shared(|m| m.gc())
     }
+    /// DDDMP export into a byte buffer; returns (file bytes, exporter result)
+    fn dddmp_export(mr: &MRef<Self>, s: &DdSettings, roots: &[&Self::F], root_names: Option<&[String]>) -> (Vec<u8>, Result<(), String>);
+    /// DDDMP import; `support_vars = None` uses header.support_var_order()
+    fn dddmp_import(mr: &MRef<Self>, data: &[u8], support_vars: Option<&[u32]>) -> Result<(DdHeader, Vec<Self::F>), String>;
     fn num_inner_nodes(mr: &MRef<Self>) -> usize {
         mr.with_manager_shared(|m| m.num_inner_nodes())
     }
@@ -405,6 +444,38 @@ macro_rules! bool_kind {
             }
             fn dump(mr: &MRef<Self>) -> String {
                 mr.with_manager_exclusive(|m| dump(&*m))
+            }
+            fn dddmp_export(mr: &MRef<Self>, s: &DdSettings, roots: &[&Self::F], root_names: Option<&[String]>) -> (Vec<u8>, Result<(), String>) {
+                use oxidd_dump::dddmp::{DDDMPVersion, ExportSettings};
+                let mut buf: Vec<u8> = vec![];
+                let mut es = ExportSettings::default().version(if s.v3 { DDDMPVersion::V3_0 } else { DDDMPVersion::V2_0 }).strict(s.strict).diagram_name(&s.diagram_name);
+                es = if s.ascii { es.ascii() } else { es.binary() };
+                let r = mr.with_manager_shared(|m| match root_names {
+                    None => es.export(&mut buf, m, roots.iter().copied()),
+                    Some(names) => es.export_with_names(&mut buf, m, roots.iter().copied().zip(names.iter())),
+                });
+                (buf, r.map_err(|e| e.to_string()))
+            }
+            fn dddmp_import(mr: &MRef<Self>, data: &[u8], support_vars: Option<&[u32]>) -> Result<(DdHeader, Vec<Self::F>), String> {
+                let mut cur = std::io::Cursor::new(data);
+                let header = oxidd_dump::dddmp::DumpHeader::load(&mut cur).map_err(|e| format!("header: {e}"))?;
+                let h = dd_header(&header);
+                let sv: Vec<u32> = match support_vars {
+                    Some(v) => v.to_vec(),
+                    None => header.support_var_order().to_vec(),
+                };
+                let fs = mr.with_manager_shared(|m| {
+                    // preconditions of import(): one target per support variable, valid, sorted by level
+                    if sv.len() != h.support_vars.len() || sv.iter().any(|v| *v >= m.num_vars()) {
+                        return Err("precondition: support_vars do not fit the manager".to_string());
+                    }
+                    let lv: Vec<u32> = sv.iter().map(|v| m.var_to_level(*v)).collect();
+                    if !lv.windows(2).all(|w| w[0] < w[1]) {
+                        return Err("precondition: support_vars not sorted by level".to_string());
+                    }
+                    oxidd_dump::dddmp::import::<Self::F>(&mut cur, &header, m, sv.iter().copied(), <Self::F as BooleanFunction>::not_edge_owned).map_err(|e| format!("import: {e}"))
+                })?;
+                Ok((h, fs))
             }
             fn set_split_depth(mr: &MRef<Self>, d: Option<u32>) {
                 use oxidd::{HasWorkers, WorkerPool};
